@@ -501,10 +501,17 @@ def subnodes(node):
     yield node
 
 
+LEAF_EXCEPTIONS = ("LeafError", "TypeError", "AttributeError", "ZeroDivisionError", "KeyError")
+
+
 def mismatch_kind(exp, got):
     if exp[0] == "ok" and got[0] == "ok":
         return "wrong-result"
     if exp[0] == "ok":
+        # exceptions of the generated leaves are one mechanism (not honouring raise_on_error /
+        # short-circuit); anything else (NameError, ...) is named
+        if got[1] in LEAF_EXCEPTIONS:
+            return "raises-leaf-exception"
         return "raises-" + got[1]
     if got[0] == "ok":
         return "swallows-exception"
